@@ -14,6 +14,7 @@ import gen_kernels
 
 PID = 'C14'
 PROP_V = 'Props/C14.v'
+CORR_V = ('Corr/CorrC14.v',)
 HEADER = 'Require Import V.Corr.CorrC14.\n'
 
 
